@@ -97,3 +97,40 @@ Definition base_case (suffix rel : str) : Z * str :=
   let inp := filter (fun c => negb (tab_or_nl c)) (rev (drop_while c0_or_space (rev raw))) in
   let base_path := path_steps [47] (split_seps (path_part inp)) in
   predict base_path rel.
+
+(* ---- filesystem probe predictions (Gen/C17Flow.v) ---------------------------------------
+   What the consumers return / create for a module, read off the provenance terms the flow translator derived
+   from the source: the string joined at the RCacheDir site of fetch_lookup (HttpSymbolSupplier::locate_file
+   downloads to cache.join(it) and returns that path) and at the RSymbolDir site of locate_file
+   (SimpleSymbolSupplier answers dir.join(it) when the file is there), per FileKind.
+   [plain]: every predicted path consists of ordinary components only (non-empty, not `.`/`..`, no NUL, at most
+   255 bytes), so that the file system stores it under exactly that name; other cases are not compared. *)
+From RM Require Import C17.FlowModel Gen.C17Flow.
+Close Scope string_scope.
+Open Scope list_scope.
+Open Scope Z_scope.
+
+Definition root_tag (r : g_root) : Z := match r with RSymbolDir => 0 | RCacheDir => 1 | RServerUrl => 2 | RUnknown => 3 end.
+(* g_flow_table = g_consumer_joins without Coq strings (C17/FlowProofs.v flow_table_is_the_site_list) *)
+Definition site_arg (fn : str) (tag : Z) : option g_arg :=
+  option_map snd (find (fun s => str_eqb (fst (fst s)) fn && Z.eqb (root_tag (snd (fst s))) tag) g_flow_table).
+Definition fn_fetch_lookup : str := [102;101;116;99;104;95;108;111;111;107;117;112].
+Definition fn_locate_file : str := [108;111;99;97;116;101;95;102;105;108;101].
+
+Definition plain_component (c : str) : bool :=
+  negb (str_is_empty c) && negb (str_eqb c [46]) && negb (str_eqb c dotdot) &&
+  forallb (fun b => negb (b =? 0)) c && (Z.of_nat (length c) <=? 255).
+Definition plain_rel (p : str) : bool := forallb plain_component (split_on 47 p).
+
+Definition kinds3 : list kind := [KBreakpadSym; KBinary; KExtraDebugInfo].
+(* (sites found, plain, HttpSymbolSupplier::locate_file per kind, SimpleSymbolSupplier::locate_file per kind) *)
+Definition fs_case (code_file : str) (debug_file did_raw cid_raw : option str)
+  : bool * bool * list (option str) * list (option str) :=
+  let m := mk_module code_file debug_file (option_map render_breakpad did_raw) (option_map code_id_new cid_raw) in
+  match site_arg fn_fetch_lookup 1, site_arg fn_locate_file 0 with
+  | Some ah, Some asim =>
+      let rh := map (fun k => eval_arg ah m k) kinds3 in
+      let rs := map (fun k => eval_arg asim m k) kinds3 in
+      (true, forallb (fun o => match o with Some p => plain_rel p | None => true end) (rh ++ rs)%list, rh, rs)
+  | _, _ => (false, false, [], [])
+  end.
